@@ -153,8 +153,11 @@ def run_task(cfg):
         if cls == 'LinkageTree':
             want = [dval(a, b) for a, b in pairs]
             got = out['cond']
-            bad = len(got) != len(want) or out['cond2'] != out['cond'] and not all(
-                (isinstance(a, SReal) and isinstance(b, SReal) and a.t.eq(b.t)) or a == b for a, b in zip(out['cond'], out['cond2']))
+            def same(a, b):
+                if isinstance(a, SReal) or isinstance(b, SReal):
+                    return isinstance(a, SReal) and isinstance(b, SReal) and a.t.eq(b.t)
+                return a == b
+            bad = len(got) != len(want) or len(out['cond2']) != len(got) or not all(same(a, b) for a, b in zip(out['cond'], out['cond2']))
             for g, w in zip(got, want):
                 if w is None:
                     bad = bad or not pysym.is_inf(g)
